@@ -250,4 +250,9 @@ pub fn write_evidence(
     let _ = std::fs::create_dir_all(dir);
     let path = format!("{dir}/{}.json", spec.id);
     std::fs::write(&path, serde_json::to_string_pretty(&ev).unwrap()).expect("cannot write evidence");
+    if tier == Tier::Thorough {
+        // keep a copy that the next quick run does not overwrite
+        let _ = std::fs::create_dir_all(format!("{dir}/thorough"));
+        let _ = std::fs::write(format!("{dir}/thorough/{}.json", spec.id), serde_json::to_string_pretty(&ev).unwrap());
+    }
 }
